@@ -54,6 +54,13 @@ type normalizer struct {
 	decl    map[types.Object]*ast.FuncDecl
 	declPkg map[types.Object]*packages.Package
 	closure map[types.Object]*ast.FuncLit // single-assignment local closures (`f := func(..){..}`, only ever called)
+	// dead closures: once EVERY call of such a closure has been replaced by its body nothing refers to the
+	// function value any more, and the statement that declares it is removed (closureEdits). A literal that
+	// stays in the text keeps capturing its free variables, which go/ssa then turns into heap cells: every
+	// read of `sensor` becomes a separate load and the rules lose the identity of the value.
+	closureStmt  map[types.Object]ast.Stmt // the declaring statement, if it is a plain member of a statement list
+	closureCalls map[types.Object]int      // number of call sites of the closure in its function
+	keepClosures bool                      // fall-back mode: never remove a literal
 	src     map[string][]byte
 	n       int
 	busy    map[types.Object]bool
@@ -491,8 +498,7 @@ func (nz *normalizer) bodyText(callee types.Object, label string, results []stri
 	defer delete(nz.busy, callee)
 	file := nz.fileOf(pk, d)
 	edits := nz.stmtEdits(pk, file, d.Body)
-	// [std] fix: a closure of the callee whose calls were inlined stays "used" in the inlined copy as well
-	edits = append(edits, nz.closureKeepEdits(d.Body.Pos(), d.Body.End())...)
+	// (the literals of the callee's own closures are kept "used" or removed by stmtEdits: closureEdits)
 	edits = append(edits, nz.tableRespell(pk, d.Body)...) // [tables]
 	if len(nz.subst) > 0 {
 		ast.Inspect(d.Body, func(n ast.Node) bool {
@@ -714,6 +720,7 @@ func (nz *normalizer) stmtEdits(pk *packages.Package, file *ast.File, root ast.N
 	var edits []textEdit
 	info := pk.TypesInfo
 	seq := 0
+	inlined := map[types.Object]int{} // closure -> calls below root that were replaced by the body
 	var handle func(s ast.Stmt, elseIf bool)
 	handle = func(s ast.Stmt, elseIf bool) {
 		target := s
@@ -842,11 +849,13 @@ func (nz *normalizer) stmtEdits(pk *packages.Package, file *ast.File, root ast.N
 			edits = append(edits, textEdit{nz.off(s.Pos()), nz.off(s.Pos()), prelude, seq})
 			seq++
 			edits = append(edits, textEdit{nz.off(site.call.Pos()), nz.off(site.call.End()), "", seq})
+			inlined[site.callee]++
 			return
 		}
 		if len(temps) == 0 {
 			return
 		}
+		inlined[site.callee]++
 		open, closeB := "", ""
 		if elseIf {
 			open, closeB = "{ ", " }"
@@ -913,13 +922,47 @@ func (nz *normalizer) stmtEdits(pk *packages.Package, file *ast.File, root ast.N
 		}
 		return true
 	})
-	return edits
+	return append(edits, nz.closureEdits(root, inlined)...)
+}
+
+// closureEdits: what becomes of the literals of the inlinable closures declared below root. A closure whose calls
+// were ALL replaced by its body (inlined counts the replaced calls below root; the closure is only ever called,
+// findClosures) is dead: the declaring statement is removed, its line breaks kept so that every other position
+// stays what it is. Creating a function value has no effect, so this preserves behaviour; and should a call
+// have survived after all (an edit that was dropped as overlapping) the name is undeclared, the normalised
+// sources do not type-check and the loader falls back to literals that stay (keepClosures). Any other literal
+// stays where it is and its variable is kept "used" by `; _ = f`.
+func (nz *normalizer) closureEdits(root ast.Node, inlined map[types.Object]int) []textEdit {
+	var out []textEdit
+	for obj, lit := range nz.closure {
+		if !(root.Pos() <= lit.Pos() && lit.End() <= root.End()) {
+			continue
+		}
+		st := nz.closureStmt[obj]
+		if !nz.keepClosures && st != nil && nz.closureCalls[obj] > 0 && inlined[obj] == nz.closureCalls[obj] {
+			b := nz.fileBytes(nz.fset.Position(st.Pos()).Filename)
+			lo, hi := nz.off(st.Pos()), nz.off(st.End())
+			if b != nil && lo < hi && hi <= len(b) {
+				out = append(out, textEdit{lo, hi, strings.Repeat("\n", bytes.Count(b[lo:hi], []byte("\n"))), 1 << 19})
+				nz.Log = append(nz.Log, fmt.Sprintf("removed closure %s at %s (every call was inlined)", obj.Name(), nz.fset.Position(st.Pos())))
+				continue
+			}
+		}
+		out = append(out, textEdit{nz.off(lit.End()), nz.off(lit.End()), "; _ = " + obj.Name(), 1 << 19})
+	}
+	return out
 }
 
 // BuildOverlay returns the normalised sources of the files that call new helpers.
 func BuildOverlay(pkgs []*packages.Package, pinned map[string]bool) (map[string][]byte, []string) {
+	return buildOverlay(pkgs, pinned, false)
+}
+
+// buildOverlay: keepClosures is the fall-back in which no closure literal is removed (closureEdits).
+func buildOverlay(pkgs []*packages.Package, pinned map[string]bool, keepClosures bool) (map[string][]byte, []string) {
 	nz := &normalizer{pkgs: pkgs, pinned: pinned, decl: map[types.Object]*ast.FuncDecl{}, declPkg: map[types.Object]*packages.Package{},
-		src: map[string][]byte{}, busy: map[types.Object]bool{}, closure: map[types.Object]*ast.FuncLit{}}
+		src: map[string][]byte{}, busy: map[types.Object]bool{}, closure: map[types.Object]*ast.FuncLit{},
+		closureStmt: map[types.Object]ast.Stmt{}, closureCalls: map[types.Object]int{}, keepClosures: keepClosures}
 	anyNew := false
 	for _, pk := range pkgs {
 		if !strings.HasPrefix(pk.PkgPath, Mod) {
@@ -978,13 +1021,7 @@ func BuildOverlay(pkgs []*packages.Package, pinned map[string]bool) (map[string]
 					delete(nz.busy, self)
 				}
 			}
-			// the variable of an inlined closure stays declared: keep it "used"
-			for obj, lit := range nz.closure {
-				if nz.declPkg[obj] != pk || !(f.Pos() <= lit.Pos() && lit.Pos() < f.End()) {
-					continue
-				}
-				edits = append(edits, textEdit{nz.off(lit.End()), nz.off(lit.End()), "; _ = " + obj.Name(), 1 << 19})
-			}
+			// (the variable of a closure whose literal stays is kept "used" by stmtEdits: closureEdits)
 			// flat views: a copy `<name>__flat` of a designated function with its private helpers inlined as well,
 			// placed on the line of the original's closing brace (all other positions stay as they are)
 			for _, d := range f.Decls {
@@ -1053,8 +1090,30 @@ func (nz *normalizer) findClosures(pk *packages.Package, fd *ast.FuncDecl) {
 	info := pk.TypesInfo
 	cands := map[types.Object]*ast.FuncLit{}
 	idents := map[types.Object]*ast.Ident{}
+	stmtOf := map[types.Object]ast.Stmt{} // the declaring statement (`f := func..` or a `var f = func..` of its own)
+	inList := map[ast.Stmt]bool{}         // statements that are plain members of a statement list
 	ast.Inspect(fd.Body, func(n ast.Node) bool {
 		switch x := n.(type) {
+		case *ast.BlockStmt:
+			for _, s := range x.List {
+				inList[s] = true
+			}
+		case *ast.CaseClause:
+			for _, s := range x.Body {
+				inList[s] = true
+			}
+		case *ast.CommClause:
+			for _, s := range x.Body {
+				inList[s] = true
+			}
+		case *ast.DeclStmt:
+			if gd, ok := x.Decl.(*ast.GenDecl); ok && gd.Tok == token.VAR && len(gd.Specs) == 1 {
+				if vs, ok := gd.Specs[0].(*ast.ValueSpec); ok && len(vs.Names) == 1 && len(vs.Values) == 1 {
+					if obj := info.Defs[vs.Names[0]]; obj != nil {
+						stmtOf[obj] = x
+					}
+				}
+			}
 		case *ast.AssignStmt:
 			if x.Tok == token.DEFINE && len(x.Lhs) == 1 && len(x.Rhs) == 1 {
 				if id, ok := x.Lhs[0].(*ast.Ident); ok {
@@ -1062,6 +1121,7 @@ func (nz *normalizer) findClosures(pk *packages.Package, fd *ast.FuncDecl) {
 						if obj := info.Defs[id]; obj != nil {
 							cands[obj] = lit
 							idents[obj] = id
+							stmtOf[obj] = x
 						}
 					}
 				}
@@ -1105,6 +1165,7 @@ func (nz *normalizer) findClosures(pk *packages.Package, fd *ast.FuncDecl) {
 	for o := range cands {
 		ok[o] = true
 	}
+	calls := map[types.Object]int{}
 	ast.Inspect(fd.Body, func(n ast.Node) bool {
 		id, isId := n.(*ast.Ident)
 		if !isId {
@@ -1115,6 +1176,7 @@ func (nz *normalizer) findClosures(pk *packages.Package, fd *ast.FuncDecl) {
 		if !isCand {
 			return true
 		}
+		calls[obj]++
 		if !callFun[id] {
 			ok[obj] = false // used as a value, reassigned, deferred or started as a goroutine
 		}
@@ -1130,6 +1192,10 @@ func (nz *normalizer) findClosures(pk *packages.Package, fd *ast.FuncDecl) {
 		nz.closure[o] = lit
 		nz.decl[o] = &ast.FuncDecl{Name: idents[o], Type: lit.Type, Body: lit.Body}
 		nz.declPkg[o] = pk
+		if st := stmtOf[o]; st != nil && inList[st] {
+			nz.closureStmt[o] = st
+		}
+		nz.closureCalls[o] = calls[o] // every use is a call (checked above)
 	}
 }
 
